@@ -329,10 +329,16 @@ fn m2(cfg: &Cfg, pool: &[Q], cold: &BTreeMap<Q, String>, log: &mut Log) {
     }
     lhook::set_cache_gap_yields(yields);
     let before = lhook::lunar_month_cache_stats();
-    // one shared list; every thread gets an overlapping, differently shuffled slice
-    let mut list: Vec<Q> = (0..120).map(|_| rng.pick(&months).clone()).collect();
-    for _ in 0..40 {
+    // one shared list; every thread gets an overlapping, differently shuffled slice.  Every 4th round is
+    // a "hot" round: 12 queries only, asked by all threads in the SAME order three times over, so that
+    // all 16 threads compute the same missing key at the same moment
+    let hot = r % 4 == 3;
+    let mut list: Vec<Q> = (0..if hot { 10 } else { 120 }).map(|_| rng.pick(&months).clone()).collect();
+    for _ in 0..if hot { 2 } else { 40 } {
       list.push(rng.pick(pool).clone());
+    }
+    if hot {
+      log.count("m2.hot_rounds_same_order", 1);
     }
     let barrier = Arc::new(Barrier::new(nthreads));
     let results: Arc<Mutex<Vec<(usize, Q, String)>>> = Arc::new(Mutex::new(vec![]));
@@ -340,8 +346,14 @@ fn m2(cfg: &Cfg, pool: &[Q], cold: &BTreeMap<Q, String>, log: &mut Log) {
       for t in 0..nthreads {
         let mut mine: Vec<Q> = list.clone();
         let mut trng = rng.fork(t as u64 + 1);
-        trng.shuffle(&mut mine);
-        mine.truncate(120);
+        if hot {
+          let once = mine.clone();
+          mine.extend(once.clone());
+          mine.extend(once);
+        } else {
+          trng.shuffle(&mut mine);
+          mine.truncate(120);
+        }
         // a few refused requests in the middle of the traffic
         if t % 4 == 0 {
           for k in 0..3 {
@@ -712,7 +724,7 @@ pub fn run(cfg: &Cfg) -> (Log, Meta) {
   log.floor("m6.first_calls_on_a_fresh_thread", 50);
   let meta = Meta {
     rule: format!(
-      "pool of {} distinct valid queries (lunar months incl. the digit-colliding label pairs (Y,11)/(10Y+1,1), (Y,12)/(10Y+1,2), year month lists, both conversions, sexagenary days, festivals, eight characters, child limits, month stepping) and {} kinds of refused request; reference = cold answer after the guarded cache reset. M1: every collision pair in 4 orders; refusal of every kind at every position of {} short histories (length 1..6){}; {} random histories of 50..400 queries (30% collision labels, 10% refusals) - every answer equals its cold answer, no lock poisoned. M2: {} rounds of 16 barrier-released threads on overlapping shuffled slices (120 of 160 queries each, refusals in every 4th thread), alternating cold/warm start and 0/50 injected yields between cache lookup and insert; double-computes counted from the hook (a run with none is inconclusive). M4: {} fresh processes answer the same 2,011-query list in different orders (the last ones on 8 threads). M5: per-value memos of LunarDay/LunarHour on clones taken before/after the first derived call. M6: 25 range-extreme queries and a sample of the pool, each as the very first library call of a fresh thread on a cold cache. {} distinct_nontrivial = distinct histories, rounds, process pairs.",
+      "pool of {} distinct valid queries (lunar months incl. the digit-colliding label pairs (Y,11)/(10Y+1,1), (Y,12)/(10Y+1,2), year month lists, both conversions, sexagenary days, festivals, eight characters, child limits, month stepping) and {} kinds of refused request; reference = cold answer after the guarded cache reset. M1: every collision pair in 4 orders; refusal of every kind at every position of {} short histories (length 1..6){}; {} random histories of 50..400 queries (30% collision labels, 10% refusals) - every answer equals its cold answer (lock poison flags are reported as notes, not judged). M2: {} rounds of 16 barrier-released threads on overlapping shuffled slices (120 of 160 queries each, refusals in every 4th thread), alternating cold/warm start and 0/50 injected yields between cache lookup and insert; double-computes counted from the hook (a run with none is inconclusive). M4: {} fresh processes answer the same 2,011-query list in different orders (the last ones on 8 threads). M5: per-value memos of LunarDay/LunarHour on clones taken before/after the first derived call. M6: 25 range-extreme queries and a sample of the pool, each as the very first library call of a fresh thread on a cold cache. {} distinct_nontrivial = distinct histories, rounds, process pairs.",
       p.len(),
       refusals().len(),
       cfg.tier.pick(12, 120),
